@@ -73,6 +73,12 @@ def system(name, shape, dtype):
         J = lambda x: diagJ(1 / (1 + x * x))
         z = np.zeros(shape, dtype=dtype) if shape else dtype(0)
         g = dict(near=z + dtype(3.0), far=z + dtype(300.0), singular=z - dtype(1e6))
+    elif name == "cosh":
+        # rootless with a smooth minimum of the residual (1 at x = 0.3): trust regions collapse there with steps far below any tolerance
+        F = lambda x: np.cosh(x - dtype(0.3))
+        J = lambda x: diagJ(np.sinh(x - dtype(0.3)))
+        z = np.zeros(shape, dtype=dtype) if shape else dtype(0)
+        g = dict(near=z + dtype(1.0), far=z + dtype(10.0), singular=z + dtype(0.3), g3=z - dtype(3.0), g5=z + dtype(5.0), g1=z + dtype(0.1), gm=z - dtype(10.0))
     elif name.startswith("stiff"):
         # well-conditioned but stiffly SCALED: F = S (A x + 0.1 sin x - b).  For large S the Newton step converges long before the residual is at the level of
         # the tolerance: a solver that takes a converged step for a solution claims a false success here
@@ -138,6 +144,10 @@ def solve_case(case):
         if solver == "nonlinear_roots":
             x, info = opt.nonlinear_roots(F, x0.copy(), jac=jac, tol=tol)
             success = bool(info[0])
+        elif solver == "nonlinear_roots_builtin":
+            # the front-end's built-in path (dogleg first, then the trust-region Newton) in double precision
+            x, info = opt.nonlinear_roots(F, x0.copy(), jac=jac, tol=tol, use_scipy=False)
+            success = bool(info[0])
         elif solver == "newtontrustregion":
             x, info = opt.newtontrustregion(F, x0.copy(), jac=jac, tol=tol)
             success = bool(info[0])
@@ -200,6 +210,16 @@ def run(ctx):
                                     if lay == "flat" and len(shp) == 1:
                                         continue
                                     cases.append(dict(system=sysn, shape=shp, solver=solver, dtype=dn, jac=jac, guess=guess, tol=tol, layout=lay))
+    # the front-end's built-in path in double precision, and rootless systems from many starting points (a solver that stalls must say so)
+    for sysn in ("cosh", "rootless", "atan", "sepquad", "trig"):
+        for shp in ([1], [2], [2, 3]):
+            for solver, dn in (("nonlinear_roots_builtin", "float64"), ("nonlinear_roots", "longdouble"), ("hybrj", "float64"), ("newtontrustregion", "float64"), ("nonlinear_roots", "float64")):
+                for jac in ("analytic", "fd"):
+                    if solver == "hybrj" and jac == "fd":
+                        continue
+                    for guess in (("near", "far", "singular", "g3", "g5", "g1", "gm") if sysn == "cosh" else ("near", "far", "singular")):
+                        for tol in (None, 1e-10):
+                            cases.append(dict(system=sysn, shape=shp, solver=solver, dtype=dn, jac=jac, guess=guess, tol=tol))
     # stiffly scaled systems: a converged step is not a small residual (all sizes; finite-difference and full user Jacobian; the solvers called directly and
     # the front-end on both dispatch paths)
     for sysn in STIFF:
